@@ -231,6 +231,11 @@ pub fn boundary_families(full: bool) -> Vec<(String, String)> {
         push("bf:longkey-quoted", format!("\"{}\": v\n", "k".repeat(n)));
         push("bf:longkey-multiline-flow", format!("{{{}\n{}: v}}\n", "k".repeat(n / 2), "k".repeat(n / 2)));
     }
+    // version numbers around the integer widths
+    for v in ["255", "256", "65535", "65536", "2147483647", "2147483648", "4294967295", "4294967296", "9999999999", "09999999999", "18446744073709551615", "18446744073709551616"] {
+        push("bf:version-width", format!("%YAML {v}.2\n--- a\n"));
+        push("bf:version-width-minor", format!("%YAML 1.{v}\n--- a\n"));
+    }
     // version numbers of 8..11 digits
     for n in 8..=11 {
         push("bf:version", format!("%YAML {}.2\n--- a\n", "1".repeat(n)));
@@ -316,7 +321,7 @@ pub fn cr(t: &str) -> String {
 }
 
 const DOC_FRAGS: &[&str] = &[
-    "&a x\n", "*a\n", "&b [1, 2]\n", "*b\n", "k: &a v\nj: *a\n", "- &a x\n- *a\n", "[&b 1, *b]\n", "{&a k: *a}\n", "&a\n", "k: *a\n", "- *b\n",
+    "&a x\n", "*a\n", "&b [1, 2]\n", "*b\n", "&a [*a, 1]\n", "&b {self: *b}\n", "k: &a [*a]\n", "- &b [x, *b]\n", "k: &a v\nj: *a\n", "- &a x\n- *a\n", "[&b 1, *b]\n", "{&a k: *a}\n", "&a\n", "k: *a\n", "- *b\n",
     "!e!t x\n", "!!str y\n", "!t &a z\n", "plain\n", "k: v\n", "- a\n- b\n", "|\n  text\n", ">-\n  folded\n  more\n", "\"q\"\n", "[a, b]\n", "{a: b}\n", "",
 ];
 const DOC_HEADS: &[&str] = &["---\n", "--- ", "---\n", "%YAML 1.2\n---\n", "%TAG !e! tag:e.org,2000:\n---\n", "%TAG !e! tag:e.org,2000:\n%TAG !f! !f-\n--- ", ""];
